@@ -31,7 +31,8 @@ Fixpoint run_check6 (n : N) (s : st) (l : list (event * obs)) : bool :=
 Definition model_eqb6 (c : cfg) (l : list (event * obs)) : bool := run_check6 (ncid_of c) (init_of c) l.
 
 (* facts known to the script: shared state, and whether the last finished pin/unpin of a cid failed *)
-Record sp6 := mk_sp6 { s6_pinset : list (N * tpin); s6_failed : list N; s6_dm : list (N * N); s6_inf : list (N * N * N * N) }.
+Record sp6 := mk_sp6 { s6_pinset : list (N * tpin); s6_failed : list N; s6_dm : list (N * N); s6_inf : list (N * N * N * N);
+                       s6_all : option (list (N * N)) (* previous listing; None before the first observation *) }.
 
 Definition inflight_of (l : list (N * N * N * N)) (c : N) : option (N * N) :=
   match find (fun q => let '(c', _, _, _) := q in N.eqb c' c) l with
@@ -39,18 +40,32 @@ Definition inflight_of (l : list (N * N * N * N)) (c : N) : option (N * N) :=
 Definition remote_pin (x : sp6) (c : N) : bool :=
   match aget c (s6_pinset x) with Some p => negb (pmeta p) && premote p | None => false end.
 
+(* before this event the listing said unexpectedly_unpinned for c (no operation, pin allocated here, not held as recorded) *)
+Definition was_unexp (x : sp6) (c : N) : bool :=
+  match s6_all x with
+  | Some l => optN_eqb (aget c l) (Some 4096)
+  | None => match aget c (s6_pinset x) with
+            | Some p => negb (pmeta p) && negb (premote p) && negb (optN_eqb (aget c (s6_dm x)) (Some (mode_code (pdirect p))))
+            | None => false end
+  end.
+
 Definition sp6_event (x : sp6) (e : event) (o : obs) : sp6 :=
-  let fin ps fl := mk_sp6 ps fl (o_daemon o) (o_inflight o) in
+  let fin ps fl := mk_sp6 ps fl (o_daemon o) (o_inflight o) (Some (o_all o)) in
   let setf (c : N) (b : bool) fl := if b then c :: remove_c c fl else remove_c c fl in
   match e with
   | ETrack p => let c := pcid p in
       fin (aput c p (s6_pinset x)) (if pmeta p then s6_failed x else setf c (N.eqb (o_ret o) 1) (s6_failed x))
   | EUntrack c => fin (adel c (s6_pinset x)) (setf c (N.eqb (o_ret o) 1) (s6_failed x))
   | ERecover c => fin (s6_pinset x) (if N.eqb (o_ret o) 1 then setf c true (s6_failed x) else s6_failed x)
-  | ERecoverAll _ =>
-      (* the cid a failing RecoverAll stopped at was in error before or is a pin the daemon does not hold: its class is
-         an error either way *)
-      fin (s6_pinset x) (s6_failed x)
+  | ERecoverAll ord =>
+      (* the cid a failing RecoverAll stopped at is not reported. Its enqueue failed, so its last pin failed: it was in
+         error before (already recorded), or it is the unvisited cid whose listing entry turned from
+         unexpectedly_unpinned into pin_error *)
+      fin (s6_pinset x)
+          (if N.eqb (o_ret o) 1
+           then filter (fun c => negb (memN c ord) && optN_eqb (aget c (o_all o)) (Some 4) && was_unexp x c)
+                       (map fst (o_all o)) ++ s6_failed x
+           else s6_failed x)
   | EComplete c fault =>
       fin (s6_pinset x)
           (match inflight_of (s6_inf x) c with
@@ -96,7 +111,7 @@ Fixpoint spec_walk6 (n : N) (x : sp6) (l : list (event * obs)) : list N :=
   end.
 
 Definition sp6_init (c : cfg) : sp6 :=
-  let '(_, _, _, pins, dm) := c in mk_sp6 (map (fun p => (pcid p, p)) pins) [] dm [].
+  let '(_, _, _, pins, dm) := c in mk_sp6 (map (fun p => (pcid p, p)) pins) [] dm [] None.
 
 Definition spec_codes6 (c : cfg) (l : list (event * obs)) : list N := nodup N.eq_dec (spec_walk6 (ncid_of c) (sp6_init c) l).
 
